@@ -583,3 +583,11 @@ Section Enc.
     simpl in Hd. inv Hd. rewrite He. auto.
   Qed.
 End Enc.
+
+Lemma encode_sound : forall cdec cenc w q, no_hquirks q ->
+  (forall ck v e, cenc ck v = Err e -> catchable e = true) ->
+  (forall ck v s, cenc ck v = Ok s -> exists v', cdec ck s = Ok v' /\ veq v' v = true) ->
+  forall t v ds, wf_t t -> enc cenc w q t v = Ok ds ->
+  exists ds', (forall p, forallb2 valid_p (pts w p t) ds' = true) /\
+              forall rest, exists v', sdec cdec w t (ds' ++ rest) = Ok (v', rest) /\ veq v' v = true.
+Proof. intros cdec cenc w q Hq He Hs t v ds Hwf. exact (enc_sound cdec cenc w q Hq He Hs t Hwf v ds). Qed.
